@@ -163,6 +163,35 @@ let c04 s b =
                 Printf.bprintf b " | r2 %d " (int_of_nat z2.z_slots); buf_tape b z2.z_reg;
                 ignore (c04_level orc b 2 z2.z_reg z2.z_outputs vars inp samples)))
 
+(* ---- C20: traces of the four tracing evaluators ----------------------------- *)
+let c20 s b =
+  let arena = parse_arena s in
+  let nroots = next s in
+  let roots = times nroots (fun () -> next_nat s) in
+  let nvars = next s in
+  let p = Array.of_list (times nvars (fun () -> next_f32 s)) in
+  let bx = Array.of_list (times nvars (fun () -> let l = next_f32 s in let u = next_f32 s in (l, u))) in
+  let given = Array.of_list (times 2 (fun () ->
+      let some = next s = 1 in let k = next s in
+      let l = times k (fun () -> code_choice (next s)) in if some then Some l else None)) in
+  let ji_panic = next s = 1 in
+  let orc = libm_oracle in
+  match flatten arena roots with
+  | Err _ -> Printf.bprintf b "build err"
+  | Ok (t, vars) ->
+    match reg_tape_new (nat_of_int 255) t.t_ops with
+    | Err _ -> Printf.bprintf b "build err"
+    | Ok (rt, _) ->
+      Printf.bprintf b "cc %d" (int_of_nat t.t_choices);
+      let (_, tp) = run_point orc rt t.t_outputs (List.map (fun v -> p.(int_of_nat v)) vars) in
+      Printf.bprintf b " | tp "; buf_trace b tp;
+      let ins = List.map (fun v -> let (l, u) = bx.(int_of_nat v) in mk_interval orc l u) vars in
+      let (outs, ti) = run_interval orc rt t.t_outputs ins in
+      let panic = List.exists (fun o -> o = None) outs in
+      if panic then Printf.bprintf b " | ti panic" else (Printf.bprintf b " | ti "; buf_trace b ti);
+      let ok = jit_trace_ok 0 tp given.(0) && (panic || ji_panic || jit_trace_ok 1 ti given.(1)) in
+      if not ok then Printf.bprintf b " | jt bad"
+
 (* Stage-A validator for a simplification: parent tape, trace (evaluation order), child tape *)
 let cmd_sval s b =
   let parent = parse_tape s in
@@ -175,6 +204,7 @@ let cmd_sval s b =
 let dispatch cmd s b =
   match cmd with
   | "sval" -> cmd_sval s b
+  | "c20" -> c20 s b
   | "c04" -> c04 s b
   | "c01" -> c01 s b
   | "val" -> cmd_val s b
